@@ -121,12 +121,26 @@ def logical_failures(R, g, fails, stats):
             "unknown_id": [G + ["rename", s, t], G + ["undo", "0123456789abcdef"], G + ["redo", "0123456789abcdef"], G + ["apply", "0123456789abcdef"]],
             "invalid_regex": [G + ["replace", "(" + s, t]],
         }
+        scripts["non_utf8_names"] = ["NONUTF8", G + ["rename", s, t], G + ["undo", "latest"]]
         for name, script in scripts.items():
             with cli.Sandbox(tree) as sb:
                 first_id = None
                 for step, cmd in enumerate(script):
                     if cmd == "OCCUPY":
                         (sb.root / "src" / f"{t}.rs").write_bytes(b"occupant\n")
+                        continue
+                    if cmd == "NONUTF8":
+                        # names that are not valid UTF-8 (legal on Linux) cannot be written into plan.json / history.json
+                        import os
+                        rb = os.fsencode(str(sb.root))
+                        with open(rb + b"/" + s.encode() + b"_\xff.txt", "wb") as fh:
+                            fh.write((s + " in a file with a raw byte in its name\n").encode())
+                        with open(rb + b"/plain_\xfe.txt", "wb") as fh:
+                            fh.write(("uses " + s + "\n").encode())
+                        os.mkdir(rb + b"/" + s.encode() + b"_d\xff")
+                        with open(rb + b"/" + s.encode() + b"_d\xff/in_" + s.encode() + b".txt", "wb") as fh:
+                            fh.write(b"x\n")
+                        nonutf8_before = {k: v for k, v in sb.snapshot().items() if any(ord(ch) > 0xDC00 and ord(ch) < 0xDD00 for ch in k)}
                         continue
                     if isinstance(cmd, str):
                         if first_id is None:
@@ -139,6 +153,14 @@ def logical_failures(R, g, fails, stats):
                     ids_a = hist_ids(sb)
                     if first_id is None and ids_a and ids_a != "UNPARSABLE":
                         first_id = ids_a[0]
+                    if name == "non_utf8_names":
+                        now = {k: v for k, v in sb.snapshot().items() if any(0xDC00 < ord(ch) < 0xDD00 for ch in k)}
+                        if now != nonutf8_before:
+                            fails.append({"why": f"'{' '.join(cmd[2:])}' (exit {rc}) changed or renamed entries whose names are not valid UTF-8: they "
+                                                 "cannot be recorded in the plan or the history, so nothing could undo it", "script": name, "step": step,
+                                          "diff": repr(cli.diff_snap(nonutf8_before, now))[:800], "stderr": e.decode("utf-8", "replace")[-300:],
+                                          "tree": cli.tree_json(tree), "search": s, "replace": t})
+                            break
                     stats["logical_commands"] = stats.get("logical_commands", 0) + 1
                     R.case(("logical", name, step, s, t), nontrivial=True)
                     if rc == 0:
